@@ -46,12 +46,21 @@ DefaultBackground == "#00000000"
 
 RunChars(it) == [c \in 1..Len(it.cps) |-> [cp |-> it.cps[c], b |-> it.b, i |-> it.i, u |-> it.u, col |-> it.col, bg |-> it.bg]]
 
-RECURSIVE ParaLinesFrom(_, _, _)
-ParaLinesFrom(items, k, cur) ==
-  IF k > Len(items) THEN <<cur>>
-  ELSE IF items[k].k = "br" THEN <<cur>> \o ParaLinesFrom(items, k + 1, <<>>)
-  ELSE IF items[k].ann = 1 THEN ParaLinesFrom(items, k + 1, cur)
-  ELSE ParaLinesFrom(items, k + 1, cur \o RunChars(items[k]))
+\* A line terminator that has survived white-space handling (LF or CR in text under xml:space="preserve") ends the line
+\* like a br does: SubRip and WebVTT have no other way to write it (CR LF leaves an empty line, which is not a line of text).
+RECURSIVE AddChars(_, _, _)
+AddChars(cur, chars, j) ==          \* <<finished lines, open line>>
+  IF j > Len(chars) THEN cur
+  ELSE IF chars[j].cp \in {10, 13} THEN AddChars(<<Append(cur[1], cur[2]), <<>>>>, chars, j + 1)
+  ELSE AddChars(<<cur[1], Append(cur[2], chars[j])>>, chars, j + 1)
+
+RECURSIVE ParaLinesAcc(_, _, _)
+ParaLinesAcc(items, k, cur) ==
+  IF k > Len(items) THEN Append(cur[1], cur[2])
+  ELSE IF items[k].k = "br" THEN ParaLinesAcc(items, k + 1, <<Append(cur[1], cur[2]), <<>>>>)
+  ELSE IF items[k].ann = 1 THEN ParaLinesAcc(items, k + 1, cur)
+  ELSE ParaLinesAcc(items, k + 1, AddChars(cur, RunChars(items[k]), 1))
+ParaLinesFrom(items, k, line) == ParaLinesAcc(items, k, <<<<>>, line>>)
 
 IsBlankLine(l) == \A c \in 1..Len(l) : l[c].cp \in WsCps
 DropBlank(ls) == SelectSeq(ls, LAMBDA l : ~IsBlankLine(l))
